@@ -235,6 +235,144 @@ theorem accepts_sound (E t : Nat) : ∀ fuel r target, accepts E t fuel r target
       subst this
       exact ⟨[], r, Run.done r (by omega), rfl⟩
 
+/-! ### The three floating-point operations before the loop, with an explicit error term
+
+`A` = the requested angle, `π` = the real number, `P = fl(π)` (`np.pi`), `a' = A % (2P)` (Python's float `%`:
+`fmod` is exact, `a' = A − kk·2P` for an integer `kk`, but for a negative `A` the divisor is added back with one
+rounding — hence an absolute error ≤ u·2P; integrality of `kk` is not needed for the bound), `rest = fl(a'/P)`,
+`tolπ = fl(tol/P)`, `u = 2^-53` the unit round-off.  The hypotheses are the standard model of IEEE-754
+round-to-nearest for one division each (relative error ≤ u, plus the absolute underflow term `η ≤ u·P`
+for denormal quotients) and for the constant `np.pi`; the harness
+re-checks every one of them, with exact rationals, on every case of the stream. -/
+
+theorem float_error_bound (A π P a' kk rest S tolπ tol u : K)
+    (hπ : 0 < π) (hu : 0 ≤ u) (hu4 : u ≤ 1 / 4)
+    (hP1 : π * (1 - u) ≤ P) (hP2 : P ≤ π * (1 + u))
+    (hmod1 : A - kk * (2 * P) - a' ≤ u * (2 * P)) (hmod2 : a' - (A - kk * (2 * P)) ≤ u * (2 * P))
+    (_ha0 : 0 ≤ a') (ha2 : a' ≤ 2 * P)
+    (η : K) (hη : η ≤ u * P)
+    (hdiv1 : rest * P - a' ≤ u * a' + η) (hdiv2 : a' - rest * P ≤ u * a' + η)
+    (htol : tolπ * P ≤ tol * (1 + u))
+    (hD0 : 0 ≤ rest - S) (hD1 : rest - S ≤ tolπ) (hrest0 : 0 ≤ rest) :
+    |A - kk * (2 * π) - S * π| ≤ tol * (1 + 4 * u) + 8 * π * u * (1 + u) + 2 * |kk| * u * π := by
+  have h1u : 0 < 1 - u := by linarith
+  have hPpos : 0 < P := lt_of_lt_of_le (mul_pos hπ h1u) hP1
+  have huπ : 0 ≤ u * π := mul_nonneg hu (le_of_lt hπ)
+  -- rest ≤ 2 (1 + u)
+  have hua2 : u * a' ≤ u * (2 * P) := mul_le_mul_of_nonneg_left ha2 hu
+  have hηπ : η ≤ u * (π * (1 + u)) := le_trans hη (mul_le_mul_of_nonneg_left hP2 hu)
+  have hrest2 : rest ≤ 2 + 3 * u := by
+    have h : rest * P ≤ (2 + 3 * u) * P := by
+      have : (2 + 3 * u) * P = 2 * P + u * (2 * P) + u * P := by ring
+      linarith
+    exact le_of_mul_le_mul_right h hPpos
+  have ha2π : a' ≤ 2 * (π * (1 + u)) := by linarith
+  -- T1 = a' - rest π
+  have hr1 : rest * (P - π) ≤ rest * (u * π) := mul_le_mul_of_nonneg_left (by linarith) hrest0
+  have hr2 : rest * (π - P) ≤ rest * (u * π) := mul_le_mul_of_nonneg_left (by linarith) hrest0
+  have hr3 : rest * (u * π) ≤ (2 + 3 * u) * (u * π) := mul_le_mul_of_nonneg_right hrest2 huπ
+  have hua : u * a' ≤ u * (2 * (π * (1 + u))) := mul_le_mul_of_nonneg_left ha2π hu
+  have hT1u : a' - rest * π ≤ 6 * π * u * (1 + u) := by
+    have : a' - rest * π = (a' - rest * P) + rest * (P - π) := by ring
+    rw [this]; nlinarith
+  have hT1l : -(6 * π * u * (1 + u)) ≤ a' - rest * π := by
+    have : a' - rest * π = (a' - rest * P) - rest * (π - P) := by ring
+    rw [this]; nlinarith
+  -- T2 = (rest - S) π
+  have htp0 : 0 ≤ tolπ := le_trans hD0 hD1
+  have hT2a : (rest - S) * π ≤ tolπ * π := mul_le_mul_of_nonneg_right hD1 (le_of_lt hπ)
+  have hT2b : tolπ * π ≤ tol * (1 + 4 * u) := by
+    have h1 : tolπ * (π * (1 - u)) ≤ tolπ * P := mul_le_mul_of_nonneg_left hP1 htp0
+    have htol0 : 0 ≤ tol := by
+      have : 0 ≤ tolπ * P := mul_nonneg htp0 (le_of_lt hPpos)
+      have h2 : 0 ≤ tol * (1 + u) := le_trans this htol
+      have : 0 < 1 + u := by linarith
+      by_contra hneg
+      have : tol * (1 + u) < 0 := mul_neg_of_neg_of_pos (lt_of_not_ge hneg) this
+      linarith
+    have h3 : tol * (1 + u) ≤ tol * ((1 + 4 * u) * (1 - u)) := by
+      apply mul_le_mul_of_nonneg_left _ htol0
+      nlinarith
+    have h4 : (tolπ * π) * (1 - u) ≤ (tol * (1 + 4 * u)) * (1 - u) := by
+      have e1 : (tolπ * π) * (1 - u) = tolπ * (π * (1 - u)) := by ring
+      have e2 : (tol * (1 + 4 * u)) * (1 - u) = tol * ((1 + 4 * u) * (1 - u)) := by ring
+      rw [e1, e2]; linarith
+    exact le_of_mul_le_mul_right h4 h1u
+  have hT2l : 0 ≤ (rest - S) * π := mul_nonneg hD0 (le_of_lt hπ)
+  -- T3 = 2 kk (P - π)
+  have hT3 : |kk * (2 * (P - π))| ≤ 2 * |kk| * u * π := by
+    rw [abs_mul, abs_mul]
+    have hp : |P - π| ≤ u * π := abs_le.mpr ⟨by linarith, by linarith⟩
+    have : |kk| * (|(2 : K)| * |P - π|) ≤ |kk| * (2 * (u * π)) := by
+      apply mul_le_mul_of_nonneg_left _ (abs_nonneg kk)
+      rw [abs_of_pos (by norm_num : (0 : K) < 2)]
+      linarith
+    linarith
+  have hX : A - kk * (2 * π) - S * π =
+      (A - kk * (2 * P) - a') + (a' - rest * π) + (rest - S) * π + kk * (2 * (P - π)) := by ring
+  have hT0 : u * (2 * P) ≤ 2 * π * u * (1 + u) := by
+    have : u * (2 * P) ≤ u * (2 * (π * (1 + u))) := mul_le_mul_of_nonneg_left (by linarith) hu
+    linarith
+  rw [hX]
+  have hT3' := abs_le.mp hT3
+  rw [abs_le]
+  constructor
+  · have htol4 : 0 ≤ tol * (1 + 4 * u) := le_trans (le_trans hT2l hT2a) hT2b
+    linarith [hT3'.1]
+  · linarith [hT3'.2]
+
+
+/-- `result_within_float`: for every run of the loop, the emitted/returned steps approximate the
+REQUESTED angle `A` modulo `2π` within `tol·(1+4u) + 8πu(1+u) + 2|kk|uπ` radians — the stated tolerance
+plus an explicit bound on the three roundings (`|kk| ≈ |A|/2π` periods removed by the float `%`). -/
+theorem result_within_float (E t r r' : Nat) (steps : List (Nat × Nat)) (h : Run E t r steps r')
+    (ht : 2 ^ E ≤ t * 2 ^ 247) (A π P a' kk tol u : K)
+    (hπ : 0 < π) (hu : 0 ≤ u) (hu4 : u ≤ 1 / 4)
+    (hP1 : π * (1 - u) ≤ P) (hP2 : P ≤ π * (1 + u))
+    (hmod1 : A - kk * (2 * P) - a' ≤ u * (2 * P)) (hmod2 : a' - (A - kk * (2 * P)) ≤ u * (2 * P))
+    (ha0 : 0 ≤ a') (ha2 : a' ≤ 2 * P)
+    (η : K) (hη : η ≤ u * P)
+    (hdiv1 : val E r * P - a' ≤ u * a' + η) (hdiv2 : a' - val E r * P ≤ u * a' + η)
+    (htol : val E t * P ≤ tol * (1 + u)) :
+    |A - kk * (2 * π) - sumVal (finish steps) * π| ≤
+      tol * (1 + 4 * u) + 8 * π * u * (1 + u) + 2 * |kk| * u * π := by
+  obtain ⟨h0, h1, _⟩ := result_within (K := K) E t r r' steps h ht
+  exact float_error_bound A π P a' kk (val E r) (sumVal (finish steps)) (val E t) tol u hπ hu hu4 hP1 hP2
+    hmod1 hmod2 ha0 ha2 η hη hdiv1 hdiv2 htol h0 h1 (val_nonneg E r)
+
+/-! ### The builder path emits exactly the steps -/
+
+/-- the rotation instructions the builder emits carry exactly the steps, in order (one instruction per
+step, nothing dropped, nothing added) -/
+theorem emitted_operands (axis vq : Nat) (steps : List (Nat × Nat)) :
+    rotOperands axis (emitRot axis vq steps) = steps := by
+  induction steps with
+  | nil => rfl
+  | cons p l ih =>
+    have : emitRot axis vq (p :: l) = [Cmd.setQ 0 vq, Cmd.rot axis 0 p.1 p.2] ++ emitRot axis vq l := by
+      simp [emitRot]
+    rw [this]
+    unfold rotOperands at ih ⊢
+    rw [List.filterMap_append, ih]
+    simp
+
+/-- `emitted_within`: the (n, d) operands of the rotation instructions EMITTED by
+`q.rot_X/Y/Z(angle=…)` under-approximate `rest` by at most `tol_pi` and fit the 8-bit fields. -/
+theorem emitted_within (axis vq E t r : Nat) (cmds : List Cmd) (hs : emitSpec axis vq E t r = some cmds)
+    (ht : 2 ^ E ≤ t * 2 ^ 247) :
+    (0 : K) ≤ val E r - sumVal (rotOperands axis cmds) ∧
+    (val E r : K) - sumVal (rotOperands axis cmds) ≤ val E t ∧
+    ∀ p ∈ rotOperands axis cmds, 1 ≤ p.1 ∧ p.1 ≤ 255 ∧ p.2 ≤ 255 := by
+  unfold emitSpec at hs
+  cases hx : spec E t r with
+  | none => rw [hx] at hs; cases hs
+  | some l =>
+    rw [hx] at hs
+    injection hs with hs
+    subst hs
+    rw [emitted_operands]
+    exact spec_within E t r l hx ht
+
 /-! ### Consecutive rotations about one axis compose to one rotation by the sum
 
 A rotation about axis `a` by θ is `cos(θ/2)·1 − sin(θ/2)·J` with `J = i·σ_a`, `J² = −1`; everything
